@@ -514,7 +514,7 @@ def phonon_text(ph):
     lines.append("%12d%12d%12d%12d%8d" % (ph["nv"], ph["nq"], ph["np"], ph["nm"], ph["na"]))
     lines.append("")
     for iv in range(ph["nv"]):
-        lines.append("P= %18.8f  V= %18.8f  E= %18.10f  " % (ph["pressures"][iv], ph["volumes"][iv], ph["energies"][iv]))
+        lines.append("P= %18s  V= %18s  E= %20s  " % (fmt_num(ph["pressures"][iv]), fmt_num(ph["volumes"][iv]), "%.12g" % ph["energies"][iv]))
         for q in range(ph["nq"]):
             lines.append("   ".join("%12.7f" % c for c in ph["qcoords"][q]))
             for m in range(ph["np"]):
@@ -626,3 +626,58 @@ def effective_qha(world):
     eff = dict(rules()["default_qha_settings"])
     eff.update(world["settings"]["qha"]["settings"])
     return eff
+
+
+# ---------------------------------------------------------------------------
+# user-written relation files (C09): hand-written per system from the textbook form of the
+# Laue-class invariants, *not* read from the packaged files
+# ---------------------------------------------------------------------------
+
+_ZERO_BLOCK = {
+    "cubic": ["14", "15", "16", "24", "25", "26", "34", "35", "36", "45", "46", "56"],
+    "hexagonal": ["14", "15", "16", "24", "25", "26", "34", "35", "36", "45", "46", "56"],
+    "tetragonal6": ["14", "15", "16", "24", "25", "26", "34", "35", "36", "45", "46", "56"],
+    "tetragonal7": ["14", "15", "24", "25", "34", "35", "36", "45", "46", "56"],
+    "orthorhombic": ["14", "15", "16", "24", "25", "26", "34", "35", "36", "45", "46", "56"],
+    "monoclinic": ["14", "16", "24", "26", "34", "36", "45", "56"],
+    "trigonal6": ["16", "26", "34", "35", "36", "45", "15", "25", "46"],
+    "trigonal7": ["16", "26", "34", "35", "36", "45"],
+    "triclinic": [],
+}
+_CHAINS = {
+    "cubic": [["c11", "c22", "c33"], ["c12", "c13", "c23"], ["c44", "c55", "c66"]],
+    "hexagonal": [["c11", "c22"], ["c13", "c23"], ["c44", "c55"], ["c66", "(c11 - c12) / 2"]],
+    "tetragonal6": [["c11", "c22"], ["c13", "c23"], ["c44", "c55"]],
+    "tetragonal7": [["c11", "c22"], ["c13", "c23"], ["c44", "c55"], ["c16", "-c26"]],
+    "orthorhombic": [],
+    "monoclinic": [],
+    "trigonal6": [["c11", "c22"], ["c13", "c23"], ["c44", "c55"], ["c66", "(c11 - c12) / 2"], ["c14", "-c24", "c56"]],
+    "trigonal7": [["c11", "c22"], ["c13", "c23"], ["c44", "c55"], ["c66", "(c11 - c12) / 2"], ["c14", "-c24", "c56"], ["c15", "-c25", "-c46"]],
+    "triclinic": [],
+}
+
+
+def relations_text(system, rng):
+    """a relations file equivalent to the packaged one for `system`: lines permuted,
+    sides of equalities swapped, chains split."""
+    lines = []
+    for chain in _CHAINS[system]:
+        chain = list(chain)
+        if rng.random() < 0.5:
+            chain.reverse()
+        if len(chain) > 2 and rng.random() < 0.5:       # split a = b = c into a = b ; b = c (or a = c)
+            lines.append(f"{chain[0]} = {chain[1]}")
+            lines.append(f"{rng.choice(chain[:2])} = {chain[2]}")
+        else:
+            lines.append(" = ".join(chain))
+    zeros = ["c" + k for k in _ZERO_BLOCK[system]]
+    rng.shuffle(zeros)
+    while zeros:
+        n = rng.randint(1, 4)
+        grp, zeros = zeros[:n], zeros[n:]
+        if rng.random() < 0.5:
+            lines.append(" = ".join(grp + ["0"]))
+        else:
+            lines.append(" = ".join(["0"] + grp))
+    rng.shuffle(lines)
+    return "\n".join(lines) + "\n"
